@@ -5,10 +5,10 @@ OUT=seeded/RECHECK.txt; : > $OUT
 for D in seeded/*/; do
   N=$(basename $D); P=${N%%_*}
   cd /repo; git diff --quiet || { echo "repo not clean"; exit 2; }
-  git apply $D/patch.diff 2>/dev/null || { echo "$N patch does not apply" >> /verif/$OUT; cd /verif; continue; }
+  git apply /verif/$D/patch.diff 2>/dev/null || patch -p1 -s -F3 < /verif/$D/patch.diff || { echo "$N patch does not apply" >> /verif/$OUT; git checkout -- .; find . -name "*.orig" -delete; find . -name "*.rej" -delete; cd /verif; continue; }
   cd /verif
   R=$(/venv/bin/python harness/check.py $P 2>&1 | tail -1)
-  git -C /repo checkout -- .
+  git -C /repo checkout -- .; find /repo -name "*.orig" -delete
   echo "$N $R" >> $OUT
 done
 git -C /verif checkout -- evidence 2>/dev/null
